@@ -44,6 +44,7 @@ PROPS = {
 for _p, _m in {'C01': ['Props.C01FinKer', 'Props.C01ShardKer'], 'C03': ['Props.C03FinKer'], 'C06': ['Props.C06FinKer'], 'C07': ['Props.C07FinKer'], 'C08': ['Props.C08FinKer'], 'C09': ['Props.C09FinKer'], 'C10': ['Props.C10FinKer'], 'C11': ['Props.C11FinKer'], 'C17': ['Props.C17FinKer']}.items(): PROPS[_p]['lean_thorough'] = PROPS[_p].get('lean_thorough', []) + _m
 # thorough tier of C04 / C12: Q8E0 to_posit on ALL 2^32 states (240 more shards of 2^24, ~3.5 CPU-hours) => C04 for Q8E0 with no side condition
 for _p in ('C04', 'C12'): PROPS[_p]['lean_thorough'] = PROPS[_p].get('lean_thorough', []) + ['Props.C12Q8All']
+PROPS['C12']['lean_thorough'] += ['Props.C12Q8SplitAll']
 OVERRIDE_PROPS = {'C04', 'C12', 'C14', 'C15', 'C16', 'C17', 'C18'}
 
 def lost_functions(gix, pid):
